@@ -1,6 +1,7 @@
 package c07
 
 import (
+	"fmt"
 	ad "github.com/pbenner/autodiff"
 	"github.com/pbenner/autodiff/algorithm/adam"
 	"github.com/pbenner/autodiff/algorithm/bfgs"
@@ -24,6 +25,9 @@ func caseBFGS(cs *fw.Case, directed int) {
 	r := cs.R
 	n := r.Range(1, 6)
 	fam := pickFamily(r, n, allFamilies)
+	if directed < 0 && r.Chance(0.1) {
+		fam = NewSteepQuartic(r, r.Range(1, 3))
+	}
 	n = fam.N()
 	x0 := startPoint(r, fam, 2)
 	eps := r.LogUniform(1e-9, 1e-3)
@@ -89,7 +93,7 @@ func caseBFGS(cs *fw.Case, directed int) {
 	t0 := fw.TickCount("bfgs.iter")
 	var xr ad.Vector
 	var err error
-	p := guarded(int64(maxIter)*50+1000, func() { xr, err = bfgs.Run(f, ad.NewDenseFloat64Vector(cloneF(x0)), args...) })
+	p := guarded(int64(maxIter)*50+1000, func() { xr, err = bfgs.Run(reuseResult(cs, f), ad.NewDenseFloat64Vector(cloneF(x0)), args...) })
 	iters := int(fw.TickCount("bfgs.iter") - t0)
 	capped := iters >= maxIter
 	o := ru.outcome(p, err, false, capped)
@@ -131,10 +135,11 @@ func vecOrNil(v ad.ConstVector) any {
 // caseRprop: mode "" is the general workload; the constrained modes place
 // the unconstrained minimiser outside the feasible set and steer a trial step
 // into the infeasible region where the stopping criterion holds:
-//   "hit"  - every coordinate of x0 is one initial step away from the minimiser
-//            (separable objective), so the first trial point is the minimiser;
-//   "near" - loose epsilon, minimiser only slightly behind the boundary, so
-//            infeasible points next to the boundary satisfy |grad| < epsilon.
+//
+//	"hit"  - every coordinate of x0 is one initial step away from the minimiser
+//	         (separable objective), so the first trial point is the minimiser;
+//	"near" - loose epsilon, minimiser only slightly behind the boundary, so
+//	         infeasible points next to the boundary satisfy |grad| < epsilon.
 func caseRprop(cs *fw.Case, directed int, mode string) {
 	if directed >= 0 {
 		cs.R = prng.For(20261003, "rprop.directed", cs.Index) // independent of VERIF_SEED
@@ -190,7 +195,7 @@ func caseRprop(cs *fw.Case, directed int, mode string) {
 			cs.Cover("rprop-constrained:minimiser-infeasible")
 		}
 	}
-	ru := &run{cs: cs, monitor: "rprop", routine: "rprop." + variant, opts: "-", class: fam.Name()}
+	ru := &run{cs: cs, explicit: variant == "RunGradient", monitor: "rprop", routine: "rprop." + variant, opts: "-", class: fam.Name()}
 	ru.witness = map[string]any{"objective": fam.Describe(), "x0": x0, "epsilon": eps, "maxIterations": maxIter, "step": step, "eta": eta, "constraints": c.describe(), "mode": mode}
 
 	evals, hooks := 0, 0
@@ -224,7 +229,7 @@ func caseRprop(cs *fw.Case, directed int, mode string) {
 		}
 		p = guarded(budget, func() {
 			var v ad.Vector
-			v, err = rprop.Run(f, ad.NewDenseFloat64Vector(cloneF(x0)), step, eta, args...)
+			v, err = rprop.Run(reuseResult(cs, f), ad.NewDenseFloat64Vector(cloneF(x0)), step, eta, args...)
 			if v != nil {
 				xr = v
 			}
@@ -327,7 +332,7 @@ func caseGD(cs *fw.Case) {
 	var xr ad.Vector
 	var err error
 	p := guarded(int64(maxIter)+1000, func() {
-		xr, err = gradientDescent.Run(f, ad.NewDenseFloat64Vector(cloneF(x0)), step, gradientDescent.Epsilon{Value: eps}, gradientDescent.Hook{Value: hook})
+		xr, err = gradientDescent.Run(reuseResult(cs, f), ad.NewDenseFloat64Vector(cloneF(x0)), step, gradientDescent.Epsilon{Value: eps}, gradientDescent.Hook{Value: hook})
 	})
 	o := ru.outcome(p, err, false, stopped)
 	cs.Cover("family:" + fam.Name())
@@ -362,11 +367,17 @@ func abs(x float64) float64 {
 /* Adam (AD objective and explicit-gradient variant)
  * -------------------------------------------------------------------------- */
 
-func caseAdam(cs *fw.Case) {
+func caseAdam(cs *fw.Case, directed int) {
+	if directed >= 0 {
+		cs.R = prng.For(20261003, "adam.directed", cs.Index) // independent of VERIF_SEED
+	}
 	r := cs.R
 	n := r.Range(1, 4)
 	fam := pickFamily(r, n, convexFamilies)
 	variant := r.Pick([]string{"Run", "Run", "RunGradient"})
+	if directed >= 0 {
+		variant = "RunGradient"
+	}
 	radius := 1.5
 	if variant == "RunGradient" {
 		radius = 0.5 // step size is fixed at 0.001 there
@@ -379,7 +390,7 @@ func caseAdam(cs *fw.Case) {
 	target, _ := fam.Minimiser()
 	c := genCons(r, ckind, x0, target)
 	inf := infeasible(c, fam)
-	ru := &run{cs: cs, monitor: "adam", routine: "adam." + variant, opts: "-", class: fam.Name()}
+	ru := &run{cs: cs, explicit: variant == "RunGradient", monitor: "adam", routine: "adam." + variant, opts: "-", class: fam.Name()}
 	ru.witness = map[string]any{"objective": fam.Describe(), "x0": x0, "epsilon": eps, "maxIterations": maxIter, "stepSize": stepSize, "constraints": c.describe()}
 	evals, hooks := 0, 0
 	var lastEval []float64
@@ -413,7 +424,7 @@ func caseAdam(cs *fw.Case) {
 		}
 		p = guarded(int64(maxIter)+1000, func() {
 			var v ad.Vector
-			v, err = adam.Run(f, ad.NewDenseFloat64Vector(cloneF(x0)), args...)
+			v, err = adam.Run(reuseResult(cs, f), ad.NewDenseFloat64Vector(cloneF(x0)), args...)
 			if v != nil {
 				xr = v
 			}
@@ -435,6 +446,17 @@ func caseAdam(cs *fw.Case) {
 			return false
 		}
 		args := []interface{}{adam.Epsilon{Value: eps}, adam.MaxIterations{Value: maxIter}, adam.Hook{Value: hook}}
+		withStep := r.Chance(0.25) || directed >= 0
+		if withStep {
+			// StepSize is an option of the package; RunGradient has the same step_size variable as Run
+			args = append(args, adam.StepSize{Value: 0.001})
+			ru.witness["stepSizeOption"] = 0.001
+		}
+		defer func() {
+			if withStep && p != nil && !p.Budget {
+				ru.violWith("stepSize", "any", "panic-on-valid-call", fmt.Sprintf("adam.RunGradient with the StepSize option panicked: %s", p.Msg))
+			}
+		}()
 		if fn := c.constFn(); fn != nil {
 			args = append(args, adam.ConstConstraints{Value: fn})
 		}
